@@ -137,7 +137,7 @@ func (s *state) handleAction(act *milter.Action) module.CheckResult {
 			Reject: true,
 			Reason: &exterrors.SMTPError{
 				Code:         act.SMTPCode,
-				EnhancedCode: exterrors.EnhancedCode{5, 7, 1},
+				EnhancedCode: exterrors.EnhancedCode{act.SMTPCode / 100, 7, 1},
 				Message:      "Message rejected due to local policy",
 				Reason:       "reply code action",
 				CheckName:    "milter",
